@@ -24,7 +24,8 @@ impl<R: Read> Read for FusedReader<R> {
         match &mut self.inner {
             Some(r) => {
                 let l = r.read(buf)?;
-                if l == 0 {
+                // a read into an empty buffer returns 0 without saying anything about EOF
+                if l == 0 && !buf.is_empty() {
                     self.inner = None;
                 }
                 Ok(l)
@@ -37,7 +38,7 @@ impl<R: Read> Read for FusedReader<R> {
         match &mut self.inner {
             Some(r) => {
                 let l = r.read_vectored(bufs)?;
-                if l == 0 {
+                if l == 0 && bufs.iter().any(|b| !b.is_empty()) {
                     self.inner = None;
                 }
                 Ok(l)
